@@ -97,6 +97,69 @@ def h_clamp(ctx):
     ctx.observe("r", r)
 
 
+def h_aimd_update(ctx, steps, avg, bits=32):
+    """AimdRateControl.update from an arbitrary controller state, `steps` calls in a row: never
+    raises; an estimate that rises stays <= 1.5 x latest measurement + 10000; on over-use the
+    estimate is <= round(0.85 x latest measurement)."""
+    a = AimdRateControl()
+    M = (1 << bits) - 1
+    a.current_bitrate = ctx.int("current_bitrate", 0, M)
+    a.current_bitrate_initialized = bool(ctx.bool("initialized"))
+    now = ctx.int("t0", 1 << 20, 1 << 40)
+    a.first_estimated_throughput_time = now - ctx.int("since_first", 0, 10000) if ctx.bool("has_first") else None
+    has_change = bool(ctx.bool("has_change"))
+    a.last_change_ms = now - ctx.int("since_change", 0, 1 << 20) if has_change else None
+    a.latest_estimated_throughput = ctx.int("latest", 0, M)
+    a.rtt = ctx.int("rtt", 0, 10000)
+    # representation invariant of the controller between calls: DECREASE is transient (update()
+    # leaves it as HOLD); INCREASE and near_max are only entered together with last_change_ms
+    if has_change:
+        a.near_max = bool(ctx.bool("near_max"))
+        a.state = ctx.choice("state", [rate.RateControlState.HOLD, rate.RateControlState.INCREASE])
+    else:
+        a.near_max = False
+        a.state = rate.RateControlState.HOLD
+    a.avg_max_bitrate_kbps = avg
+    n_mult = [0]
+
+    def mult(new_bitrate, last_ms, now_ms):  # contract of the pow()-based helper: an int >= 1000
+        n_mult[0] += 1
+        return ctx.int("mult%d" % n_mult[0], 1000, max(M, 1000))
+
+    def upd_max(kbps):  # float EWMA of the max-throughput estimate: stubbed, keeps avg defined
+        if a.avg_max_bitrate_kbps is None:
+            a.avg_max_bitrate_kbps = 1000.0
+
+    def additive(last_ms, now_ms):  # contract proved by the aimd-near-max harness: an int >= 0
+        n_mult[0] += 1
+        return ctx.int("add%d" % n_mult[0], 0, M)
+
+    a._multiplicative_rate_increase = mult
+    a._additive_rate_increase = additive
+    a._update_max_throughput_estimate = upd_max
+    latest = a.latest_estimated_throughput
+    for i in range(steps):
+        if i:
+            now = now + ctx.int("gap%d" % i, 0, 5000)
+        usage = ctx.choice("usage%d" % i, [BandwidthUsage.NORMAL, BandwidthUsage.UNDERUSING, BandwidthUsage.OVERUSING])
+        T = ctx.int("T%d" % i, 0, M) if ctx.bool("T%d_given" % i) else None
+        if T is not None:
+            latest = T
+        prev = a.current_bitrate
+        was_init = a.current_bitrate_initialized
+        r = a.update(usage, T, now)
+        ctx.reach("updated")
+        if r is None:
+            ctx.check(not was_init and usage != BandwidthUsage.OVERUSING, "no-estimate-only-while-uninitialised-and-not-overusing")
+            continue
+        ctx.check(r >= 0, "estimate-non-negative")
+        ctx.check(sx.Implies(r > prev, r <= (3 * latest) // 2 + 10000), "estimate-never-rises-above-1.5x-latest-measurement-plus-10k")
+        if usage == BandwidthUsage.OVERUSING:
+            ctx.check(100 * r <= 85 * latest + 50, "overuse-cuts-to-at-most-85-percent-of-latest-measurement")
+        ctx.check(sx.eq(a.current_bitrate, r), "reported-estimate-is-the-controller-state")
+    ctx.observe("ok", True)
+
+
 class _StubInterArrival:
     def compute_deltas(self, timestamp, arrival_time, size):
         return None
@@ -239,6 +302,7 @@ HARNESSES = {
     "ratecounter": Harness("ratecounter", h_ratecounter, _rc_jobs, style="BMC", bounds="window W in {2,3,4} (quick) / {2,3,4,5,8} ms, every add/rate sequence of length 4 (5), non-decreasing symbolic times with gaps 0..2W, sizes 0..1500", encoded=ENC, stubs=STUBS, outside=["W = 1000 as deployed (the code is parametric in the window size)"], twin="rate-queried", opts={"samples": 1}),
     "aimd-near-max": Harness("aimd-near-max", h_near_max, lambda tier: [{}], style="STEP", bounds="current_bitrate 0..2^32-1, rtt 0..10000 ms, elapsed 0..2^20 ms", encoded=ENC, stubs=STUBS, twin="near-max-computed"),
     "aimd-clamp": Harness("aimd-clamp", h_clamp, lambda tier: [{}], style="STEP", bounds="current 0..2^32-1, new 0..2^40, throughput 0..2^32-1", encoded=ENC, stubs=STUBS, twin="clamped"),
+    "aimd-update": Harness("aimd-update", h_aimd_update, lambda tier: [{"steps": s, "avg": v} for s in ((1, 2) if tier == "quick" else (1, 2, 3)) for v in (None, 1000.0)], style="BMC from an arbitrary controller state", bounds="1..2 (quick) / 1..3 consecutive update() calls from an arbitrary controller state: current_bitrate/latest measurement 0..2^32-1, any state/near_max/initialised flags, measurement present or None, gaps 0..5000 ms; avg_max_bitrate_kbps None or 1000.0 (var 0.4)", encoded=ENC + ["aiortc.rate:AimdRateControl.update"], stubs=STUBS + ["AimdRateControl._multiplicative_rate_increase (pow) -> arbitrary int in 1000..2^32-1; _additive_rate_increase -> arbitrary int in 0..2^40 (its contract, result >= 0 and no exception, is the aimd-near-max harness); _update_max_throughput_estimate (float EWMA) -> sets avg to 1000.0; round(0.85*T): any integer within 1/2 + half-ulp of the exact rational product (over-approximates IEEE rounding)"], outside=["float state avg/var_max_bitrate_kbps other than None/1000.0 (sqrt of symbolic floats)"], twin="updated", opts={"lia": True}),
     "orchestration": Harness("orchestration", h_orchestration, lambda tier: [{"npk": n, "W": 2} for n in ((2,) if tier == "quick" else (2, 3))], style="BMC", bounds="<=3 (quick) / <=4 packets with symbolic SSRCs (overlaps solver-decided), arrival gaps 0..700 ms, sizes 0..1500, window 4 ms", encoded=ENC, stubs=STUBS, twin="added", opts={"samples": 1}),
     "many-ssrcs": Harness("many-ssrcs", h_many_ssrcs, lambda tier: [{"n": n} for n in (2, 255, 256)], style="NC (targeted, concrete count)", bounds="2, 255 and 256 distinct SSRCs", encoded=ENC, stubs=STUBS, twin="many-added"),
 }
